@@ -131,9 +131,11 @@ impl Response {
                 if !/* not */self.headers.ContentLength().is_none() {
                     self.headers.set().ContentLength(None);
                 }
+                /* the content can be ( or have been, for HEAD ) a stream: its `Transfer-Encoding` goes with it */
+                if !/* not */self.headers.TransferEncoding().is_none() {
+                    self.headers.set().TransferEncoding(None);
+                }
                 if !/* not */matches!(self.content, Content::None) {
-                    /* the dropped content can be a stream: its `Transfer-Encoding` goes with it */
-                    self.forget_stream();
                     self.content = Content::None;
                 }
             }
